@@ -339,3 +339,336 @@ def C06(ck):
     kzreader.replay(ck, rscen, set())
     kzreader.record(ck, 'c06', 2000 if T else 400, thorough=T)
     kzwriter.record(ck, 'c04', 60 if T else 8, thorough=T)
+
+
+# ------------------------------------------------------------------------------------------------
+LEVEL['C16'] = 'model_checking'
+
+
+def _norm_cfg(impl, fam, rare=254, dom=4, bigs=(10, 100, 1000), lrs=(8, 12), maxlen=3, menu=(1, 2, 3)):
+    mc = '---- MODULE MC_N ----\nEXTENDS KzNormFreq\nMCBigs == {%s}\nMCLRs == {%s}\nMCMenu == {%s}\n====\n' % (
+        ','.join(map(str, bigs)), ','.join(map(str, lrs)), ','.join(map(str, menu)))
+    c = ('CONSTANTS\n Impl = "%s"\n MaxRare = %d\n MaxDom = %d\n Bigs <- MCBigs\n LRs <- MCLRs\n MaxLen = %d\n Menu <- MCMenu\n Fam = "%s"\n'
+         'SPECIFICATION Spec\nINVARIANT Valid\nCHECK_DEADLOCK FALSE\n') % (impl, rare, dom, maxlen, fam)
+    return mc, c
+
+
+def C16(ck):
+    import re
+    from concurrent.futures import ThreadPoolExecutor
+    T = thorough(ck)
+    rnd = random.Random(ck.seed * 7 + 3)
+    # (a) the transcription satisfies ValidTable on the enumerated families (fixed), and can fail (as-is)
+    runs = [('fixed', 'A', dict(rare=254 if T else 120, dom=6 if T else 3, bigs=(10, 100, 1000, 100000) if T else (10, 1000), lrs=(8, 10, 12, 16) if T else (8, 12))),
+            ('fixed', 'B', dict(maxlen=4 if T else 3, menu=(1, 2, 3, 7, 40, 255, 256, 1000, 65535) if T else (1, 2, 3, 40, 255, 256, 1000), lrs=(8, 9, 12, 16) if T else (8, 12))),
+            ('asis', 'A', dict(rare=100, dom=3, bigs=(10, 100, 1000), lrs=(8, 12)))]
+
+    def one(r):
+        mc, c = _norm_cfg(r[0], r[1], **r[2])
+        return kzv.tlc('MC_N', c, workers=4, timeout=3000, extra_files={'MC_N.tla': mc}, heap='3g')
+    with ThreadPoolExecutor(max_workers=3) as ex:
+        results = list(ex.map(one, runs))
+    for r, res in zip(runs, results):
+        if r[0] == 'fixed':
+            ck.add_tlc(res, label='KzNormFreq %s family %s' % (r[0], r[1]))
+            if not res.ok:
+                raise kzv.ToolFailure('KzNormFreq (fixed) violates ValidTable: ' + res.out[-2000:])
+        else:
+            ck.cov['selftest_asis'] = {'violated': res.violated, 'histograms': res.distinct}
+            if not res.violated:
+                raise kzv.ToolFailure('vacuity self-test: as-is transcription passes ValidTable')
+    # (b) the same families + random histograms through the real function, judged by TLC (Trace_Norm)
+    cases = []
+    convs = [('sym', 'spread'), ('sym', 'first'), ('sym', 'last'), ('compact', '')]
+    step = 3 if T else 11
+    for lr in ((8, 9, 10, 12, 14, 16) if T else (8, 12, 16)):
+        for r in range(0, 256, step):
+            for d in ((1, 2, 3, 4, 8) if T else (1, 2, 4)):
+                for big in ((10, 100, 1000, 100000) if T else (10, 1000)):
+                    if 1 <= r + d <= 256 and r + d <= (1 << lr):
+                        cv = convs[(r + d + lr) % 4]
+                        cases.append({'in': [1] * r + [big + i for i in range(d)], 'lr': lr, 'conv': cv[0], 'pos': cv[1]})
+    # exact-total and near-total histograms (shortcut path), tiny alphabets
+    for lr in (8, 11, 12, 16):
+        S = 1 << lr
+        for cv in convs:
+            cases.append({'in': [S // 2, S - S // 2], 'lr': lr, 'conv': cv[0], 'pos': cv[1]})
+            cases.append({'in': [S], 'lr': lr, 'conv': cv[0], 'pos': cv[1]})
+            cases.append({'in': [1] * min(256, S), 'lr': lr, 'conv': cv[0], 'pos': cv[1]})
+            cases.append({'in': [S - 1, 2], 'lr': lr, 'conv': cv[0], 'pos': cv[1]})
+    nrand = 6000 if T else 500
+    for i in range(nrand):
+        lr = rnd.choice((8, 9, 10, 11, 12, 13, 14, 15, 16))
+        n = rnd.choice((1, 2, 3, 5, 17, 64, 200, 255, 256))
+        n = min(n, 1 << lr)
+        kind = rnd.randrange(5)
+        if kind == 0:
+            h = [rnd.randint(1, 4) for _ in range(n)]
+        elif kind == 1:
+            h = [rnd.randint(1, 1 << rnd.randint(1, 26)) for _ in range(n)]
+        elif kind == 2:
+            h = [1] * n
+            for _ in range(rnd.randint(1, 3)):
+                h[rnd.randrange(n)] = rnd.randint(2, 1 << 20)
+        elif kind == 3:
+            h = sorted(rnd.randint(1, 5000) for _ in range(n))
+        else:
+            h = [max(1, int(rnd.expovariate(1 / 50.0))) for _ in range(n)]
+        cv = rnd.choice(convs)
+        cases.append({'in': h, 'lr': lr, 'conv': cv[0], 'pos': cv[1]})
+    kzh = kzv.build_harness()
+    base = os.path.join(kzv.BUILD, 'tlc', 'norm_%d' % os.getpid())
+    nchunks = min(kzv.NCPU, 16)
+    chunks = [cases[i::nchunks] for i in range(nchunks)]
+
+    def judge(i):
+        cf, tf = '%s.%d.cases' % (base, i), '%s.%d.ndjson' % (base, i)
+        with open(cf, 'w') as fh:
+            for c in chunks[i]:
+                fh.write(json.dumps(c) + '\n')
+        rc, so, se, dt = kzv.run([kzh, 'norm', cf, tf], timeout=600)
+        if rc != 0:
+            raise kzv.ToolFailure('norm driver failed: ' + se[-1000:])
+        res = kzv.validate_trace('Trace_Norm', tf, timeout=3000)
+        if res.error or res.violated:
+            raise kzv.ToolFailure('Trace_Norm failed: %s %s\n%s' % (res.error, res.violated, res.out[-1500:]))
+        tr = kzv.read_ndjson(tf)
+        v = [tr[int(x) - 1] for x in re.findall(r'<<"VIOLATION_AT", (\d+), "C16_invalid_table">>', res.out)]
+        d = [tr[int(x) - 1] for x in re.findall(r'<<"DRIFT_AT", (\d+)>>', res.out)]
+        for f in (cf, tf):
+            os.remove(f)
+        return res, v, d, tr[:1]
+    with ThreadPoolExecutor(max_workers=nchunks) as ex:
+        outs = list(ex.map(judge, range(nchunks)))
+    ndrift = 0
+    for res, v, d, sample in outs:
+        ck.cov['states'] += res.distinct
+        ck.cov['transitions'] += res.generated
+        ndrift += len(d)
+        for e in v:
+            ck.violation({'kind': 'norm', 'pred': 'C16_invalid_table', 'in': e['in'][:40], 'scale': e['scale'], 'conv': e['conv'], 'err': e.get('err')},
+                         {'cmd': 'norm', 'event': e}, name='norm')
+        for s in sample:
+            ck.sample({'NORM': {k: (v2 if not isinstance(v2, list) else v2[:12]) for k, v2 in s.items()}}, cap=3)
+    distinct = len(set((tuple(c['in']), c['lr'], c['conv']) for c in cases if len(c['in']) >= 2))
+    ck.cov['evaluations'] += len(cases)
+    ck.cov['distinct_nontrivial'] += distinct
+    ck.cov['traces_validated_against_impl'] += len(cases)
+    ck.cov['drift_vs_transcription'] = ndrift
+    ck.cov['rule'] = ('NormalizeFrequencies transcribed in KzNormFreq.tla; TLC checks ValidTable on the transcription over family A (r symbols of '
+                      'count 1 + d dominant symbols) and family B (all short sequences over a menu); the same families plus exact-total and random '
+                      'histograms (counts up to 2^26, alphabets 1..256, scales 2^8..2^16, both calling conventions: symbol-indexed as ANS/RANGE, '
+                      'compact as HUFFMAN) go through the real function and TLC evaluates ValidTable on the real outputs (verdict) and equality '
+                      'with the transcription (drift, reported only). non-trivial = distinct histogram with >= 2 symbols')
+    if ndrift:
+        ck.notes.append('%d real outputs are valid tables that differ from the transcription (drift, not a violation)' % ndrift)
+    ck.assumptions += ['totalFreq passed to the function is the true sum of the counts (as all callers do)',
+                       'histograms with count*scale >= 2^31 are judged on the post-condition only (TLC integers are 32 bit)']
+
+
+# ------------------------------------------------------------------------------------------------
+LEVEL['C15'] = 'model_checking'
+
+T_NAMES = ['NONE', 'BWT', 'BWTS', 'LZ', 'RLT', 'ZRLT', 'MTFT', 'RANK', 'EXE', 'TEXT', 'ROLZ', 'ROLZX', 'SRT', 'LZP', 'MM', 'LZX',
+           'UTF', 'PACK', 'DNA']
+E_NAMES = ['NONE', 'HUFFMAN', 'FPAQ', 'RANGE', 'ANS0', 'CM', 'TPAQ', 'ANS1', 'TPAQX']
+# data on which the variant-specific code paths of a transform are active
+SHAPE_FOR = {'TEXT': 'text', 'UTF': 'utf8', 'DNA': 'dna', 'PACK': 'smallalpha', 'EXE': 'exe', 'MM': 'wav', 'ROLZX': 'text', 'ROLZ': 'text',
+             'RLT': 'runs', 'ZRLT': 'sparse', 'BWT': 'text', 'BWTS': 'text', 'LZ': 'html', 'LZX': 'html', 'LZP': 'html', 'SRT': 'text',
+             'RANK': 'runs', 'MTFT': 'runs', 'NONE': 'mixed'}
+
+
+def C15(ck):
+    import re
+    T = thorough(ck)
+    rnd = random.Random(ck.seed * 11 + 5)
+    # (a) the tables of KzNames: round trips for all chains up to 3 (quick 2) over all 19 names
+    names_set = '{' + ', '.join('"%s"' % n for n in T_NAMES) + '}'
+    mc = '---- MODULE MC_K ----\nEXTENDS KzNames\nMCNames == %s\n====\n' % names_set
+    c = 'CONSTANTS\n MaxChain = %d\n Names <- MCNames\nSPECIFICATION Spec\nINVARIANTS RoundTripName RoundTripType LeftAligned Injective\nCHECK_DEADLOCK FALSE\n' % (3 if T else 2)
+    res = kzv.tlc('MC_K', c, workers=8, timeout=1800, extra_files={'MC_K.tla': mc}, heap='3g')
+    ck.add_tlc(res, 'KzNames chains')
+    if not res.ok:
+        raise kzv.ToolFailure('KzNames fails its own check: ' + res.out[-2000:])
+    # (b) every spelling through the real GetType/GetName, and through the full Writer/Reader
+    cases = []
+    for n in T_NAMES:
+        for m in range(1 << len(n)):
+            cases.append({'kind': 't', 'names': [n], 'masks': [m]})
+    for n in E_NAMES:
+        for m in range(1 << len(n)):
+            cases.append({'kind': 'e', 'ename': n, 'emask': m})
+    # all chains of length 2 (and 3 in thorough, sampled in quick), random chains up to 8 with NONE fillers
+    for a in T_NAMES:
+        for b in T_NAMES:
+            cases.append({'kind': 't', 'names': [a, b], 'masks': [rnd.randrange(1 << len(a)), rnd.randrange(1 << len(b))]})
+    if T:
+        for a in T_NAMES:
+            for b in T_NAMES:
+                for c3 in T_NAMES:
+                    cases.append({'kind': 't', 'names': [a, b, c3], 'masks': [rnd.randrange(1 << len(x)) for x in (a, b, c3)]})
+    for i in range(3000 if T else 400):
+        k = rnd.randint(3, 8)
+        ch = [rnd.choice(T_NAMES + ['NONE'] * 4) for _ in range(k)]
+        cases.append({'kind': 't', 'names': ch, 'masks': [rnd.randrange(1 << len(x)) for x in ch]})
+
+    def stream_cases(names, ename, nvariants, size=20000):
+        key = '+'.join(names) + '&' + ename
+        shape = SHAPE_FOR.get([n for n in names if n != 'NONE'][0] if any(n != 'NONE' for n in names) else 'NONE', 'mixed')
+        if ename in ('TPAQ', 'TPAQX', 'CM'):
+            size = min(size, 12000)
+        base = {'kind': 's', 'names': names, 'ename': ename, 'shape': shape, 'size': size, 'key': key, 'block': 16384}
+        out = [dict(base, masks=[0] * len(names), emask=0, canon=True)]
+        full = [(1 << len(n)) - 1 for n in names]
+        variants = [(full, (1 << len(ename)) - 1)]
+        for _ in range(nvariants - 1):
+            variants.append(([rnd.randrange(1 << len(n)) for n in names], rnd.randrange(1 << len(ename))))
+        for ms, em in variants:
+            out.append(dict(base, masks=ms, emask=em, canon=False))
+        return out
+    # every transform name and every entropy name end to end: all-lower + mixed spellings against the canonical one
+    for n in T_NAMES:
+        for e in (('NONE', 'HUFFMAN', 'TPAQX') if T else ('HUFFMAN',)):
+            cases += stream_cases([n], e, 3 if T else 2)
+    for e in E_NAMES:
+        for tn in (('NONE', 'TEXT', 'LZ') if T else ('TEXT',)):
+            cases += stream_cases([tn], e, 3 if T else 2)
+    pairs = [(a, b) for a in T_NAMES for b in T_NAMES]
+    rnd.shuffle(pairs)
+    for a, b in pairs[:(361 if T else 40)]:
+        cases += stream_cases([a, b], rnd.choice(E_NAMES[:5]), 2, size=8000)
+    for i in range(60 if T else 8):
+        k = rnd.randint(3, 8)
+        ch = [rnd.choice(T_NAMES) for _ in range(k)]
+        cases += stream_cases(ch, rnd.choice(E_NAMES), 2, size=6000)
+    # headerless streams
+    for n in ('ROLZX', 'TEXT', 'LZ'):
+        for e in ('TPAQX', 'ANS0'):
+            hc = stream_cases([n], e, 2)
+            for x in hc:
+                x['headerless'] = True
+                x['key'] += '|hl'
+            cases += hc
+    kzh = kzv.build_harness()
+    base = os.path.join(kzv.BUILD, 'tlc', 'names_%d' % os.getpid())
+    with open(base + '.cases', 'w') as fh:
+        for x in cases:
+            fh.write(json.dumps(x) + '\n')
+    rc, so, se, dt = kzv.run([kzh, 'names', base + '.cases', base + '.ndjson'], timeout=3000)
+    if rc != 0:
+        raise kzv.ToolFailure('names driver failed: ' + se[-1500:])
+    res = kzv.validate_trace('Trace_Names', base + '.ndjson', timeout=1800)
+    if res.error or res.violated:
+        raise kzv.ToolFailure('Trace_Names failed: %s %s\n%s' % (res.error, res.violated, res.out[-1500:]))
+    tr = kzv.read_ndjson(base + '.ndjson')
+    ck.cov['states'] += res.distinct
+    ck.cov['transitions'] += res.generated
+    for ln, pred in re.findall(r'<<"VIOLATION_AT", (\d+), "([^"]+)">>', res.out):
+        e = tr[int(ln) - 1]
+        ck.violation({'kind': 'names', 'pred': pred, 'spelled': e.get('spelled'), 'rt': e.get('rt')}, {'cmd': 'names', 'event': e}, name='names')
+    ns = len([x for x in cases if x['kind'] == 's'])
+    ck.cov['evaluations'] += len(cases)
+    ck.cov['distinct_nontrivial'] += len(set(json.dumps(x, sort_keys=True) for x in cases if x['kind'] == 's' or len(x.get('names', [])) > 1))
+    ck.cov['traces_validated_against_impl'] += len(cases)
+    ck.cov['streams'] = ns
+    ck.sample({'TNAME': tr[5]})
+    ck.sample({'STREAM': [x for x in tr if x['ev'] == 'STREAM'][1]})
+    ck.cov['rule'] = ('KzNames.tla (code tables, packing with NONE removed, canonical names) model-checked for all chains up to length 2 (3); every case '
+                      'variant of the 19 transform and 9 entropy names, all chains of length 2 (3), random chains to 8 with NONE fillers through the real '
+                      'GetType/GetName, judged against the spec tables by Trace_Names.tla; every name (and sampled chains) end to end through '
+                      'Writer/Reader in lower/mixed case on data that activates the variant: stream digest must equal the canonical spelling, header type '
+                      'codes (independent parser) must equal the spec codes, round trip must succeed. non-trivial = stream case or chain case')
+    for f in (base + '.cases', base + '.ndjson'):
+        os.remove(f)
+
+
+# ------------------------------------------------------------------------------------------------
+LEVEL['C03'] = 'exploration'
+
+
+def _violations_from(res_out, tr):
+    import re
+    return [(tr[int(ln) - 1], pred) for ln, pred in re.findall(r'<<"VIOLATION_AT", (\d+), "([^"]+)">>', res_out)]
+
+
+def C03(ck):
+    import shutil
+    T = thorough(ck)
+    # (a) containment design: helper goroutines (KzHelpers) and the reader under faults (liveness, deadlock freedom)
+    for nh, bad in ((2, '{}'), (2, '{1}'), (3, '{2, 3}')):
+        c = 'CONSTANTS\n NHelpers = %d\n Impl = "fixed"\n BadInput = %s\nSPECIFICATION FairSpec\nINVARIANTS Alive Reported\nPROPERTIES Terminates\n' % (nh, bad)
+        res = kzv.tlc('KzHelpers', c, workers=1, timeout=300)
+        ck.add_tlc(res, 'KzHelpers fixed %d %s' % (nh, bad))
+        if not res.ok:
+            raise kzv.ToolFailure('KzHelpers (fixed) fails: ' + res.out[-1500:])
+    res = kzv.tlc('KzHelpers', 'CONSTANTS\n NHelpers = 2\n Impl = "asis"\n BadInput = {1}\nSPECIFICATION Spec\nINVARIANTS Alive\n', workers=1, timeout=300)
+    ck.cov['selftest_asis'] = {'violated': res.violated}
+    if not res.violated:
+        raise kzv.ToolFailure('vacuity self-test: as-is helper design keeps the process alive')
+    live = []
+    for jobs in (2, 3):
+        live.append(rcfg(jobs, ['ok', 'fail', 'ok', 'eos'], lens=(5,)))
+        live.append(rcfg(jobs, ['ok', 'ok'], lens=(5,)))
+        live.append(rcfg(jobs, ['crc', 'ok', 'ok', 'eos'], lens=(5,)))
+    kzreader.run_models(ck, [], dump=False, liveness_cfgs=live)
+    # (b) structure-aware mutants decoded in child processes
+    kzh = kzv.build_harness()
+    d = os.path.join(kzv.BUILD, 'c03_%d' % os.getpid())
+    tracef = d + '.ndjson'
+    cmd = [kzh, 'c03', '-bases', str(400 if T else 40), '-big', str(6 if T else 1), '-per', str(0 if T else 70), '-seed', str(ck.seed),
+           '-out', tracef, '-sum', d + '.sum', '-dir', d, '-par', str(kzv.NCPU)]
+    if T:
+        cmd.append('-thorough')
+    try:
+        rc, so, se, dt = kzv.run(cmd, timeout=6 * 3600 if T else 1500)
+        if rc != 0:
+            raise kzv.ToolFailure('c03 driver failed: ' + se[-1500:])
+        summ = json.load(open(d + '.sum'))
+        res = kzv.validate_trace('Trace_Total', tracef, timeout=1800)
+        if res.error or res.violated:
+            raise kzv.ToolFailure('Trace_Total failed: %s %s\n%s' % (res.error, res.violated, res.out[-1500:]))
+        tr = kzv.read_ndjson(tracef)
+        ck.cov['states'] += res.distinct
+        ck.cov['transitions'] += res.generated
+        seen = set()
+        for e, pred in _violations_from(res.out, tr):
+            if e['status'] == 'unknown':
+                raise kzv.ToolFailure('child result missing for mutant %s' % e.get('mut'))
+            desc = json.loads(e['desc'])
+            key = (pred, e['base'].split(' ')[0], e['mut'].split('@')[0].split('=')[0])
+            if key in seen:
+                continue
+            seen.add(key)
+            # keep the failing stream with the replay file
+            keep = None
+            try:
+                os.makedirs(kzv.REPLAYS, exist_ok=True)
+                keep = os.path.join(kzv.REPLAYS, 'C03_mutant_%d_%d.knz' % (ck.seed, e['id']))
+                shutil.copy(desc['file'], keep)
+            except OSError:
+                pass
+            ck.violation({'kind': 'mutant', 'pred': pred, 'base': e['base'], 'mut': e['mut'], 'jobs': e['jobs'], 'ms': e['ms'],
+                          'stderr': (e.get('stderr') or '')[:200]},
+                         {'cmd': 'child-decode', 'stream_file': keep, 'jobs': e['jobs'], 'bound_ms': e['bound'], 'event': {k: v for k, v in e.items() if k != 'desc'}},
+                         name='mutant')
+        ck.cov['evaluations'] += summ['runs']
+        ck.cov['distinct_nontrivial'] += summ['distinct']
+        ck.cov['traces_validated_against_impl'] += summ['runs']
+        ck.cov['outcomes'] = summ['byMode']
+        for s in summ['samples'][:3]:
+            ck.sample({'mutant': s})
+    finally:
+        shutil.rmtree(d, ignore_errors=True)
+        for f in (tracef, d + '.sum'):
+            try:
+                os.remove(f)
+            except OSError:
+                pass
+    ck.cov['rule'] = ('containment design model-checked (KzHelpers: helper goroutines; KzReader: every call returns under failures, weak fairness); '
+                      'then exploration: base streams over random chains / all codecs; mutants = KzFormat field catalogue (header fields with the '
+                      'header checksum recomputed, every transform/entropy code, block length width and length, mode byte, skip flags, '
+                      'pre-transform length, first 24 bytes of the codec data = per-codec headers such as BWT primary indexes, LZ/ROLZ/alphabet '
+                      'headers) x {0, max, +-1, bit flips, random} + random bytes, truncation, splices, garbage; the multi-MiB inverse BWT regime; '
+                      'each mutant decoded in a child process (jobs 1..8) under a watchdog; Trace_Total: exit by normal return within the bound. '
+                      'non-trivial = distinct (base stream, mutation) other than identity')
+    ck.assumptions += ['totality over all byte strings is explored, not decided', 'time bound per mutant: 45 s (60 s for 5 MiB BWT blocks) while valid decodes take milliseconds; a hang is re-run alone before it counts']
